@@ -173,6 +173,27 @@ Fixpoint run_proto64 (s : tb) (ps : list pop) : outcome :=
 Definition model_history64 (o : Z) (ps : list pop) : outcome :=
   if i64b o && (o mod 64 =? 0) then run_proto64 (NewTailBitmap o) ps else OBad.
 
+(** two objects, interleaved calls: [false] goes to A, [true] to B *)
+Fixpoint run_pair (sa sb : tb) (cs : list (bool * pop)) : outcome :=
+  match cs with
+  | [] => OOk []
+  | (w, p) :: t =>
+      let s := if w then sb else sa in
+      if negb (pop_in_domain s p) then OBad
+      else match pstep s p with
+           | None => OPanic
+           | Some (s', r) =>
+               match (if w then run_pair sa s' t else run_pair s' sb t) with
+               | OOk l => OOk ((Offset s', Words s', r) :: l)
+               | x => x
+               end
+           end
+  end.
+
+Definition model_pair (oa ob : Z) (cs : list (bool * pop)) : outcome :=
+  if offset_in_domain oa && offset_in_domain ob
+  then run_pair (NewTailBitmap oa) (NewTailBitmap ob) cs else OBad.
+
 (** ---- val plumbing ---- *)
 
 Definition dec_pop (v : val) : option pop :=
@@ -200,6 +221,23 @@ Definition dec_args_lit (a : list val) : option (Z * list Z * list pop) :=
       | Some ws, Some ps => Some (o, ws, ps)
       | _, _ => None
       end
+  | _ => None
+  end.
+
+Definition dec_pcall (v : val) : option (bool * pop) :=
+  match v with
+  | VL [VZ w; c] =>
+      match dec_pop c with
+      | Some p => if w =? 0 then Some (false, p) else if w =? 1 then Some (true, p) else None
+      | None => None
+      end
+  | _ => None
+  end.
+
+Definition dec_args_pair (a : list val) : option (Z * Z * list (bool * pop)) :=
+  match a with
+  | [VZ oa; VZ ob; VL cs] =>
+      match opt_all (map dec_pcall cs) with Some cs => Some (oa, ob, cs) | None => None end
   | _ => None
   end.
 
@@ -249,6 +287,24 @@ Definition ops_C15 : list opdef := [
      op_spec := fun a obs =>
        match dec_args_lit a, dec_obs obs with
        | Some (o, ws, ps), Some l => check_literal o ws ps l
+       | _, _ => false
+       end |};
+  (* op  bitmap.TailBitmap/pair   args [oA, oB, [[which, call], ...]] : two TailBitmaps alive in one
+     process, calls interleaved; one [Offset, Words, result] of the called object per call *)
+  {| op_name := "bitmap.TailBitmap/pair";
+     op_run := fun a =>
+       match dec_args_pair a with
+       | Some (oa, ob, cs) =>
+           match model_pair oa ob cs with
+           | OBad => VBad
+           | OPanic => VPanic
+           | OOk l => VL (map enc_ob l)
+           end
+       | None => VBad
+       end;
+     op_spec := fun a obs =>
+       match dec_args_pair a, dec_obs obs with
+       | Some (oa, ob, cs), Some l => check_pair oa ob cs l
        | _, _ => false
        end |};
   (* op  bitmap.TailBitmap/int64   args [o, [call, ...]] : the history protocol near the ends of the
